@@ -293,6 +293,11 @@ class Discharger:
         self.table_ok, self.table_visited = evaltables.application_is_sound(fb)
         if self.table_visited:
             self.arity_ok = self.table_ok          # decision tables of the application (evaltables.py) decided every row
+            try:
+                if not self.table_ok and c08.arity_checked_by_callers(fb, ap):
+                    self.arity_ok = None            # the count is checked where calls are made, not in apply_procedure: not decided here
+            except Exception:
+                pass
         else:
             try:
                 # (the tables could not follow the application code: a shape rule can still *establish* the check where the
@@ -729,6 +734,9 @@ class Discharger:
             src_ = self._unwrap_src(f, t)
             if not src_ or not callee_matches(src_[1], "Iterator>::next", "Iterator::next"):
                 return None             # (not an argument being read: another argument may apply)
+            if self.arity_ok is None:
+                return (None, "D-arity-user", "the count is checked where calls are made, not where they are applied: whether a wrong count "
+                                              "can reach the binding code is not decided by the application table")
             return (False, "D-arity-user", "the application decision table shows a wrong argument count reaching the binding code")
         if kind != "unwrap" or not f.name.startswith(ITP + "apply_scheme_procedure::{closure"):
             return None
